@@ -7,6 +7,7 @@ import (
 	"go/types"
 	"math"
 	"math/big"
+	"regexp"
 	"strconv"
 	"strings"
 	"unsafe"
@@ -339,7 +340,7 @@ func writeKey(sb *strings.Builder, v value) {
 	case float64:
 		sb.WriteString(strconv.FormatFloat(x, 'g', -1, 64))
 	case string:
-		if hasSymMarker(x) {
+		if hasSymMarker(x) && !sigTokenRe.MatchString(x) {
 			panic(abortPath{"symbolic string used as map key"})
 		}
 		sb.WriteString(strconv.Quote(x))
@@ -498,3 +499,5 @@ func bigOf(s structure) *sym.Term {
 	}
 	return sym.Int64(0)
 }
+
+var sigTokenRe = regexp.MustCompile("^" + symMarker + "sig#[0-9]+" + symMarkerEnd + "$")
